@@ -237,4 +237,16 @@ theorem payloadInv_step_gen (S : Schema) (hS : S ∈ domFamilySchemas) (D g : Na
     (family_leafOk _ (domFamily_sub _ hS)) (family_textStableC _ (domFamily_sub _ hS))
     (family_closable _ (domFamily_sub _ hS)) D g st inv hv hU hwf hsz st' h
 
+/-- `PM.C11.fit_emits_valid_payload_cut` with its schema guards discharged for the bundled schema family -/
+theorem fit_emits_valid_payload_cut (S : Schema) (hS : S ∈ domFamilySchemas) (doc : Node) (f t : Nat)
+    (src : Node) (a b : Nat) (sl : Slice) (hsrc : C01.Valid S src) (hcut : src.slice a b = .ok sl)
+    (hv : C01.Valid S doc) (hattrs : S.nodeAttrsOK doc = true) (hrun : unplacedWfRun S doc f t sl = true)
+    (st : Step) (h : replaceStep S doc f t sl = .ok (some st)) :
+    ∃ sl', st.sliceOf = some sl' ∧ openValid S sl'.openStart sl'.openEnd sl'.content = true :=
+  PM.C11.fit_emits_valid_payload_cut S (family_det _ (domFamily_sub _ hS))
+    (family_fillersOK _ (domFamily_sub _ hS)) (family_wrapOK _ (domFamily_sub _ hS))
+    (family_labelsOK _ (domFamily_sub _ hS)) (family_leafOk _ (domFamily_sub _ hS))
+    (family_textStableC _ (domFamily_sub _ hS)) (family_closable _ (domFamily_sub _ hS)) doc f t src a b sl hsrc
+    hcut hv hattrs hrun st h
+
 end PM.Family.C11
